@@ -156,17 +156,39 @@ pub mod harness {
     }
     /// transform_pattern(pat,t).tt() == t.apply(pat.tt()), proved the way one proves it by hand; every intermediate fact is first
     /// ASSERTED (checked by CBMC for all inputs) and only then assumed for the following steps, so nothing is taken on trust:
-    ///   S(x) := the table of x under the input part of t (minterm definition npn_table(x, perm, in_neg, false));  zs[perm[i]] := VAR_TT[i] ^ neg_i
+    ///   S(x) := the table of x under the input part of t (gathered through the minterm map);  zs[perm[i]] := VAR_TT[i] ^ neg_i
     ///   (1) induction over the nodes of pat: S(node_i over VAR_TT) == node_i over zs          (variables first, then each gate)
     ///   (2) AigPattern::eval agrees with the node tables on VAR_TT and on zs                  => pat.eval(zs) == S(pat.tt())
     ///   (3) transform_pattern(pat,t).eval(VAR_TT) == out_neg ^ pat.eval(zs)                   (edge substitution, real eval)
     ///   (4) t.apply(f) == out_neg ^ S(f) for f = pat.tt()                                     (real perm_tt / flip_inputs)
     ///   => (5) the contract, and (6) the library lemma: any (canonical, t) with t.apply(pat.tt()) == canonical gives an entry
     ///      (canonical, transform_pattern(pat,t)) whose pattern computes canonical (the source's debug_assert_eq in build_library).
+    /// proof device only (never part of a statement): the minterm map of the input part of a transform, idx[m] = number of the assignment z
+    /// with z[p[i]] = m_i ^ neg_i, and the table gathered through it, S(x)[m] = x[idx[m]]
+    fn minterm_map(p: [u8; 4], neg: u8) -> [u8; 16] {
+        let mut idx = [0u8; 16];
+        let mut m = 0u8;
+        while m < 16 {
+            let y = m ^ (neg & 15);
+            idx[m as usize] = (((y >> 0) & 1) << p[0]) | (((y >> 1) & 1) << p[1]) | (((y >> 2) & 1) << p[2]) | (((y >> 3) & 1) << p[3]);
+            m += 1;
+        }
+        idx
+    }
+    fn gather(x: Tt4, idx: &[u8; 16]) -> Tt4 {
+        let mut r: Tt4 = 0;
+        let mut m = 0usize;
+        while m < 16 {
+            r |= ((x >> (idx[m] & 15)) & 1) << m;
+            m += 1;
+        }
+        r
+    }
     fn transform_commutes(n: u8, canary: bool) {
         let pat = any_pattern(n);
         let t = any_transform();
         let (p, neg) = (t.perm, t.in_neg);
+        let idx = minterm_map(p, neg);
         let mut zs = [0u16; 4];
         zs[p[0] as usize] = VAR_TT[0] ^ mask(neg & 1 != 0);
         zs[p[1] as usize] = VAR_TT[1] ^ mask(neg & 2 != 0);
@@ -176,13 +198,13 @@ pub mod harness {
         let vz = node_tables(&pat, zs);
         let mut i = 0usize;
         while i < 4 + n as usize {
-            let s = npn_table(vp[i], p, neg, false);
+            let s = gather(vp[i], &idx);
             assert!(s == vz[i], "(1) node table under the input transform");
             kani::assume(s == vz[i]);
             i += 1;
         }
         let o = pat.output;
-        let f = pat.eval(VAR_TT);
+        let f = pat.tt();
         let fe = vp[o.0 as usize] ^ mask(o.1);
         assert!(f == fe, "(2) eval == node tables on VAR_TT");
         kani::assume(f == fe);
@@ -190,25 +212,26 @@ pub mod harness {
         let ge = vz[o.0 as usize] ^ mask(o.1);
         assert!(g == ge, "(2) eval == node tables on zs");
         kani::assume(g == ge);
-        let sf = npn_table(f, p, neg, false);
+        let sf = gather(f, &idx);
         assert!(g == sf, "(2) pat.eval(zs) == S(pat.tt())");
         kani::assume(g == sf);
         let q = transform_pattern(&pat, t);
         assert!(wf_pattern(&q) && q.size() == pat.size(), "transform_pattern changed the shape of the pattern");
-        let qe = q.eval(VAR_TT);
-        assert!(qe == g ^ mask(t.out_neg), "(3) transformed pattern == out_neg ^ pat.eval(zs)");
-        kani::assume(qe == g ^ mask(t.out_neg));
+        let qt = q.tt();
+        assert!(qt == g ^ mask(t.out_neg), "(3) transformed pattern == out_neg ^ pat.eval(zs)");
+        kani::assume(qt == g ^ mask(t.out_neg));
         let ap = t.apply(f);
         assert!(ap == sf ^ mask(t.out_neg), "(4) apply == out_neg ^ S");
         kani::assume(ap == sf ^ mask(t.out_neg));
         if canary {
-            assert!(q.tt() != 0x8888, "canary: the assumption chain is satisfiable");
+            assert!(qt != 0xAAAA, "canary: the assumption chain is satisfiable");
             return;
         }
-        assert!(q.tt() == t.apply(pat.tt()), "(5) transform_pattern(pat,t).tt() != t.apply(pat.tt())");
+        // (5): qt = transform_pattern(&pat, t).tt(), ap = t.apply(pat.tt())
+        assert!(qt == ap, "(5) transform_pattern(pat,t).tt() != t.apply(pat.tt())");
         let canonical: Tt4 = kani::any();
-        kani::assume(t.apply(pat.tt()) == canonical);
-        assert!(q.tt() == canonical, "(6) library entry does not compute its recorded truth table");
+        kani::assume(ap == canonical);
+        assert!(qt == canonical, "(6) library entry does not compute its recorded truth table");
     }
     /// for every transform (row of ALL_PERMS x any u8 mask x bool) and every well-formed pattern with n gates; n = 0,1,2,3 = all n <= MAX_ANDS
     #[vp_proof(17)]
@@ -257,6 +280,6 @@ pub mod harness {
     /// canary: the assert-then-assume chain of transform_commutes is satisfiable (must FAIL)
     #[vp_proof(17)]
     pub fn canary_transform_chain() {
-        transform_commutes(1, true);
+        transform_commutes(0, true);
     }
 }
